@@ -15,7 +15,7 @@ theorem coll_operator_in_loop_eq (item : V) (l : List V) (acc : V) :
 
 /-- the translated `operator_in` is the model's `vin` -/
 theorem coll_operator_in_eq (item container : V) : Gen.Coll.operator_in item container = vin item container := by
-  simp only [Gen.Coll.operator_in, vin, coll_operator_in_loop_eq]
+  cases item <;> cases container <;> simp [Gen.Coll.operator_in, vin, coll_operator_in_loop_eq, V.isErr]
 
 /-- the translated `ListType.__getitem__` (guard + Python's list indexing) is the model's `listAt`:
 the guard against negative indexes (defect D16) is in the source now -/
